@@ -53,21 +53,29 @@ Fixpoint find_best_ping (maxs : N) (cs : list conn) (i : nat) (best : option (na
   | c :: t => find_best_ping maxs t (S i) (if usable_go maxs c then better i c best else best)
   end.
 
-(** updateBest: [prev] is the index of the current bestConn in [cs] ([None] = nil);
-    the result is the index of the new bestConn. *)
-Definition update_best (st : strategy) (cs : list conn) (prev : option nat) : option nat :=
-  match cs with
+(** updateBest: [prev] is the index of the current bestConn in the pool ([None] = nil);
+    the result is the index of the new bestConn.  updateBest reads every head TWICE: once
+    for the maximum ([maxSeqno], first loop) and once more inside find* (second loop); it
+    holds only the pool lock, and SetMasterHead needs only the connection lock, so a head
+    can rise between the two reads.  [cs1] is what the first loop saw, [cs2] what the
+    second loop sees (IsOK and AverageRoundTrip are read in the second loop only). *)
+Definition update_best2 (st : strategy) (cs1 cs2 : list conn) (prev : option nat) : option nat :=
+  match cs2 with
   | [] => prev                                   (* if len(p.conns) == 0 { return } *)
   | _ =>
-      let m := max_seqno cs in
+      let m := max_seqno cs1 in
       match st with
       | BestPing =>
-          match find_best_ping m cs 0 None with Some (i, _) => Some i | None => prev end
+          match find_best_ping m cs2 0 None with Some (i, _) => Some i | None => prev end
       | FirstWorking =>
-          match find_first_working m cs 0 with Some i => Some i | None => prev end
+          match find_first_working m cs2 0 with Some i => Some i | None => prev end
       | OtherStrategy => prev
       end
   end.
+
+(** no head update lands inside the call: both loops see the same heads *)
+Definition update_best (st : strategy) (cs : list conn) (prev : option nat) : option nat :=
+  update_best2 st cs cs prev.
 
 (** ---- specification vocabulary (property C13, first sentence) ---- *)
 
@@ -77,6 +85,11 @@ Definition newest (cs : list conn) : N := fold_right N.max 0%N (map seq32 cs).
 (** alive and at most one masterchain block behind the newest head *)
 Definition eligible (cs : list conn) (c : conn) : Prop :=
   c_alive c = true /\ (newest cs - seq32 c <= 1)%N.
+
+(** the heads only rise between the two reads of updateBest (connection.masterHead is
+    monotone in seqno); liveness and round-trip time are whatever the second loop observes *)
+Definition heads_rose (cs1 cs2 : list conn) : Prop :=
+  Forall2 (fun c1 c2 => (seq32 c1 <= seq32 c2)%N) cs1 cs2.
 
 (** [res] is the choice the property prescribes among the connections satisfying [P] *)
 Definition is_choice (st : strategy) (P : conn -> Prop) (cs : list conn)
